@@ -142,6 +142,8 @@ EXC = {
     "TypeError": TypeError,
     "StopIteration": StopIteration,
     "ZeroDivisionError": ZeroDivisionError,
+    "NoArgsError": type("NoArgsError", (Exception,), {"__init__": lambda self, *a: Exception.__init__(self)}),  # exc.args == ()
+    "OSError": OSError,
 }
 
 INSTANCE_UID = "1.2.826.0.1.3680043.8.498.1"
@@ -788,13 +790,168 @@ def strategies(clean_fraction=True):
             )
         )
 
+    # ---- C-STORE sub-operations served by the retrieve REQUESTOR (Association._c_store_scp), see run_substore_case
+    def substore(clean):
+        stat = st_status(allow_bad=not clean)
+        good = st.builds(lambda s: {"k": "st", "st": s}, stat)
+        bad = st.one_of(raising, st.builds(lambda s, d: {"k": "pair", "st": s, "ds": d}, stat, any_ds))
+        item = good if clean else st.one_of(good, good, good, bad)
+        where = st.just("ok") if clean else st.sampled_from(["ok"] * 10 + ["unaccepted", "mismatch", "no-role"])
+        rq = st.fixed_dictionaries(
+            {
+                "msg_id": msg_id,
+                "items": item.map(lambda i: [i]),
+                "pre": st.none() if clean else st.one_of(st.none(), st.none(), st.none(), st.none(), exc),
+                "where": where,
+                "pick": st.integers(0, 7),
+            }
+        )
+        names = sorted(TS)
+        raw_case = st.fixed_dictionaries(
+            {
+                "via": st.sampled_from(["get", "get", "move"]),
+                "ids": st.lists(cx, min_size=7, max_size=7, unique=True),
+                "sorted_ids": st.booleans(),
+                "ts": st.permutations(names),  # transfer syntaxes of the accepted contexts of the SOP class under test
+                "n_same": st.sampled_from([1, 2, 2, 2, 3, 3, 4]),  # on how many contexts the SOP class under test was accepted
+                "other_sop": st.booleans(),  # another storage SOP class accepted (SCP role) as well
+                "no_role": st.booleans(),  # the SOP class under test accepted once more WITHOUT the SCP role
+                "rqs": st.lists(rq, min_size=1, max_size=3),
+            }
+        )
+
+        def resolve(d):
+            ids = sorted(d["ids"]) if d["sorted_ids"] else list(d["ids"])
+            model_cx, spare, ids = ids[0], ids[1], ids[2:]
+            layout = [[ids[i], "store-ct", d["ts"][i], True] for i in range(d["n_same"])]
+            nxt = d["n_same"]
+            if d["other_sop"]:
+                layout.append([ids[nxt], "store-sc", d["ts"][0], True])
+                nxt += 1
+            if d["no_role"] and nxt < len(ids):
+                layout.append([ids[nxt], "store-ct", d["ts"][1], False])
+            same = [e for e in layout if e[1] == "store-ct" and e[3]]
+            other = [e for e in layout if e[1] == "store-sc"]
+            norole = [e for e in layout if not e[3]]
+            rqs, used = [], set()
+            for r in d["rqs"]:
+                w, k = r["where"], r["pick"]
+                if w == "mismatch" and not other:
+                    w = "ok"
+                if w == "no-role" and not norole:
+                    w = "ok"
+                if w == "ok":
+                    cid = same[k % len(same)][0]
+                elif w == "mismatch":
+                    cid = other[0][0]  # a CT request on the context accepted for another SOP class
+                elif w == "no-role":
+                    cid = norole[0][0]
+                else:
+                    cid = spare  # never proposed / not accepted
+                m = r["msg_id"]
+                while m in used:
+                    m = (m + 1) % 65536
+                used.add(m)
+                rqs.append({"cid": cid, "where": w, "msg_id": m, "items": r["items"], "pre": r["pre"]})
+            return {"family": "substore", "via": d["via"], "model_cx": model_cx, "layout": layout, "rqs": rqs}
+
+        return raw_case.map(resolve)
+
     def mix(f):
         return st.one_of(f(False), f(False), f(True)) if clean_fraction else f(False)
 
     def find_one(svc):
         return mix(lambda clean: find(clean, svc))
 
-    return SimpleNamespace(single=mix(single), find=mix(find), retrieve=mix(retrieve), find_one=find_one, single_raw=single, find_raw=find, retrieve_raw=retrieve)
+    return SimpleNamespace(
+        single=mix(single), find=mix(find), retrieve=mix(retrieve), find_one=find_one, single_raw=single, find_raw=find, retrieve_raw=retrieve,
+        substore=mix(substore), substore_raw=substore,
+    )
+
+
+# --------------------------------------------------------------------------------------------- requestor-side Storage SCP
+class SubstoreObs:
+    def __init__(self):
+        self.logs = {}  # msg_id -> HandlerLog of the request with that Message ID
+        self.seen = []  # per handler call: (request Message ID, request._context_id, event.context.context_id, event.context.transfer_syntax)
+        self.raised = None  # exception escaping send_c_get/send_c_move or its generator
+        self.wire = []
+        self.aborted_locally = False
+        self.request_sent = False
+        self.yields = []
+
+    def store_responses(self):
+        return [m for k, m in self.wire if k == "dimse" and m.field == CMD["C-STORE"][1]]
+
+    def others(self):
+        """DIMSE messages sent that are neither the retrieve request itself nor C-STORE responses"""
+        return [m for k, m in self.wire if k == "dimse" and m.field not in (CMD["C-STORE"][1], CMD["C-GET"][0], CMD["C-MOVE"][0])]
+
+
+def run_substore_case(case):
+    """The Storage SCP a C-GET/C-MOVE *requestor* runs for C-STORE sub-operations on its own association
+    (Association._c_store_scp), thread-free.
+
+    case = {"via": "get"|"move", "model_cx": id of the accepted retrieve context,
+            "layout": [[context_id, svc key (a C-STORE entry of SERVICES), tsname, as_scp], ...]   accepted storage contexts
+            "rqs": [{"cid": context ID the C-STORE request arrives on, "msg_id", "items": [ITEM], "pre": exc name|None,
+                     "where": label}, ...]}      the request's SOP class is always SERVICES["store-ct"]
+    The peer's messages (every C-STORE request as P-DATA through dimse.receive_primitive, then the final retrieve
+    response) are already received when the SCU starts waiting, as in run_ctx_case's 'cget-scu' path.  One EVT_C_STORE
+    handler serves all requests and behaves per request (looked up by the request's Message ID) as scripted."""
+    from pydicom.dataset import Dataset
+
+    from pynetdicom import dimse_primitives as P
+    from pynetdicom import evt
+
+    get = case.get("via", "get") == "get"
+    model = CTX_SOP["C-GET" if get else "C-MOVE"]
+    contexts = [(model, TS["implicit"][0], True, False, case["model_cx"])]
+    ts_of = {}
+    for cid, svc, tsname, as_scp in case["layout"]:
+        contexts.append((SERVICES[svc][1], TS[tsname][0], not as_scp, as_scp, cid))
+        ts_of[cid] = tsname
+    obs = SubstoreObs()
+    a = E3.mk("requestor", contexts)
+    handlers = {}
+    for r in case["rqs"]:
+        log = HandlerLog()
+        obs.logs[r["msg_id"]] = log
+        handlers[r["msg_id"]] = make_handler({"svc": "store-ct", "items": r["items"], "pre": r.get("pre")}, log)
+
+    def on_store(event):
+        rq = event.request
+        obs.seen.append((rq.MessageID, rq._context_id, event.context.context_id, str(event.context.transfer_syntax)))
+        return handlers[rq.MessageID](event)
+
+    a.bind(evt.EVT_C_STORE, on_store)
+    ident = Dataset()
+    ident.QueryRetrieveLevel = "PATIENT"
+    ident.PatientID = "1"
+    with E3.no_sleep(), warnings.catch_warnings():
+        warnings.simplefilter("ignore")
+        try:
+            for r in case["rqs"]:
+                req = mk_request("C-STORE", SERVICES["store-ct"][1], r["msg_id"], ts_of.get(r["cid"], "implicit"))
+                E3.inject_message(a, req, r["cid"])
+            fin = P.C_GET() if get else P.C_MOVE()
+            fin.MessageIDBeingRespondedTo = 1
+            fin.AffectedSOPClassUID = model
+            fin.Status = 0x0000
+            fin.NumberOfCompletedSuboperations = len(case["rqs"])
+            fin.NumberOfFailedSuboperations = 0
+            fin.NumberOfWarningSuboperations = 0
+            E3.inject_message(a, fin, case["model_cx"])
+            n0 = len(a.sent)
+            gen = a.send_c_get(ident, model, msg_id=1) if get else a.send_c_move(ident, "DEST", model, msg_id=1)
+            obs.request_sent = len(a.sent) > n0
+            obs.yields = [s.get("Status") for s, _ in gen]
+        except Exception as e:  # noqa: BLE001 - recorded, judged by the check
+            obs.raised = e
+    obs.wire = wire_decode(a.sent)
+    obs.aborted_locally = any(k == "abort" for k, _ in obs.wire)
+    obs.assoc = a
+    return obs
 
 
 # --------------------------------------------------------------------------------------------- C19: context-ID paths
